@@ -13,6 +13,8 @@ import (
 // hostileAlphabet: lines that look like diff syntax.
 var hostileAlphabet = []string{"", "a", "b", "-x", "+y", " z", "-- q", "++ q", "- x", "-", "+", " ", "@ -1 +1 @@", "iff --git a/x b/x", "<", "> b", "< a", "---", "--- q", "+++ q",
 	"@@ -1 +1 @@", "diff x", "***", "*** 1,2 ****", "***************", "1a2", "2,3c4", "\\", "\\ No newline at end of file", "! w", "- v", "+ u", "  t",
+	// lines that, behind their one-byte marker, ARE a separator or header of some format ("-- " is the mail signature separator)
+	"- ", "+ ", "-- ", "++ ", "--", "++", "-- \t", "> ", "< ", "! ", "* ", "\\ ", "--- ", "+++ ", "@@", "@@ ", "-@@ -1 +1 @@", "+@@ -1 +1 @@", "-- a/x", "++ b/x", "iff", "--git",
 	// no newline inside, but bytes that line-trimming or text-mode handling would eat
 	"b\r", "\r", "a\r\r", "\tq", "q\t", "q ", "\x00", "\xff\xfe", "\u2028", "\v", "q\f", "\u0085", "\u00a0", "a\rb"}
 
